@@ -8,7 +8,7 @@ import binascii
 import vcommon as V
 
 META = dict(
-    text="Lean 4 theorems on the EXECUTABLE VM model (Model/VM.lean, the model compared with the Go interpreter text by text on every run) prove, with no hypothesis on state, code, fuel or nesting depth: when Run/runLoop ends with an error — raised at any depth of re-entry (callExpr→evalCallExpr→nested→run, callUser→builtin→apply/map/force→run) — the data, scope and address stacks have exactly the sizes captured at entry, curfunc is restored, the pc is parked behind the function, and the scope-stack object set aside by lazy forces is the one of entry (vm_run_error_at_rest; the last part by induction over all 13 mutually recursive VM functions, allKeeps); a failing text given to an interpreter at rest leaves it at rest and usable with the four depths 0,1,0,0 (vm_text_error_at_rest, vm_text_error_depths; the loop-record stack is handed back balanced by all eight compile functions and left alone by all 13 VM functions), a compile error runs nothing. The stack effect of each of the 25 non-re-entrant instructions of the real instruction set is proved for every state and outcome (vm_instr_effect) and gives the frame condition instruction by instruction (vm_instr_frame); the restored stacks EQUAL the captured ones whenever the state at the fault still stands on them (vm_run_error_exact), and concrete counterexamples show that this hypothesis cannot be dropped (TruncateToSize pads with nil cells; sizes that fit are not enough). Nothing but the control state is rolled back (defs_prefix). The earlier theorems on the small capture/restore model and the facts regenerated from the Go source (capture and restore cover the same six components; every error exit of every function that captures restores first; no Generate* call drops its error) are kept. On the real code the property is decided by failure injection at every reachable call (k-th call, every k) x 9 kinds with a twin interpreter, now also reading pc/curfunc and the bottom cell of the scope stack; a second op family written in the core language runs the same failing history on the VM model (impl vs model: class, value, four depths, pc/curfunc, scope-stack bottom, follow-up battery) and the twin history on the reference evaluator (impl vs spec).",
+    text="Lean 4 theorems on the EXECUTABLE VM model (Model/VM.lean, the model compared with the Go interpreter text by text on every run) prove, with no hypothesis on state, code, fuel or nesting depth: when Run/runLoop ends with an error — raised at any depth of re-entry (callExpr→evalCallExpr→nested→run, callUser→builtin→apply/map/force→run) — the data, scope and address stacks have exactly the sizes captured at entry, curfunc is restored, the pc is parked behind the function, and the scope-stack object set aside by lazy forces is the one of entry (vm_run_error_at_rest; the last part by induction over all 13 mutually recursive VM functions, allKeeps); a failing text given to an interpreter at rest leaves it at rest and usable with the four depths 0,1,0,0 (vm_text_error_at_rest, vm_text_error_depths; the loop-record stack is handed back balanced by all eight compile functions and left alone by all 13 VM functions), a compile error runs nothing. The stack effect of each of the 25 non-re-entrant instructions of the real instruction set is proved for every state and outcome (vm_instr_effect) and gives the frame condition instruction by instruction (vm_instr_frame); the restored stacks EQUAL the captured ones whenever the state at the fault still stands on them (vm_run_error_exact), and concrete counterexamples show that this hypothesis cannot be dropped (TruncateToSize pads with nil cells; sizes that fit are not enough). Nothing but the control state is rolled back (defs_prefix). `map` never swallows a callback's error: on the model the fault of the head element, or of any later element through every earlier successful one, IS the outcome of the whole map over a list, and a map that returned a value had every callback return a value (map_list_head_error_is_outcome, map_list_later_error_is_outcome, map_list_value_means_no_error). The earlier theorems on the small capture/restore model and the facts regenerated from the Go source (capture and restore cover the same six components; every error exit of every function that captures restores first; no Generate* call drops its error) are kept. On the real code the property is decided by failure injection at every reachable call (k-th call, every k) x 9 kinds with a twin interpreter, now also reading pc/curfunc and the bottom cell of the scope stack; a second op family written in the core language runs the same failing history on the VM model (impl vs model: class, value, four depths, pc/curfunc, scope-stack bottom, follow-up battery) and the twin history on the reference evaluator (impl vs spec).",
     note="Trusted: Lean kernel, axioms propext/Classical.choice/Quot.sound; the extractor (syntactic); the `contain` harness (differential testing: the generator computes the prefix program from the evaluation order of the forms it emits); Spec/RefEval as twin oracle of the core ops. NOT proved: that the fault state of GENERATED code satisfies `Extends3` (nothing below the captured depths was touched) — it is a hypothesis of vm_run_error_exact; the full statement VmErrorAtRestExact is proved except for the content of the one scope cell at top level (vm_error_at_rest_exact_partial). Missing for it: C04's RunAtRest, the simulation between vm_instr_effect and C04's abstract checker_sound (room at every pc of a balanced listing) through the re-entrant instructions, GenBalanced for `for`/function bodies.",
     technique="Lean 4 proof over the executable VM model (induction on fuel; all-13-functions invariant; per-instruction stack-effect table) + capture/restore model + decide over regenerated source tables + failure-injection/twin correspondence (impl vs VM model vs reference evaluator)",
     design_ref="DESIGN.md §7 C05; notes/C05.md",
@@ -63,7 +63,7 @@ def run(rep):
     rep.coverage["rule"] = ("programs generated over begin/let/letseq/newScope/cond/and/+/list/array/hash/infix/fn/defn/apply/map/eval/lazy/for/recursion "
                             "(tail and non-tail); for every reachable dynamic call of the host function `boom` (k-th call, every k up to a cap) the kinds err and panic, "
                             "plus one sampled site per program for undef/arity/typeerr/evalcompile/loadcompile/macroexp, plus a parse error and a fault-free control; "
-                            "core ops (kind `core`): programs of the core language only over begin/+/let/letseq/newScope/cond/and/array/list/fn/defn/apply/map/lazy+force/for/recursion, "
+                            "core ops (kind `core`): programs of the core language only over begin/+/let/letseq/newScope/cond/and/array/list/fn/defn/apply/map (over arrays AND lists)/lazy+force/for/recursion, "
                             "failure (unbound symbol / arity / rejected operands) at the k-th dynamic execution of a site for every reachable k (cap 8), the same history run on the VM model and the twin history on the reference evaluator; "
                             "non-trivial = an op with an injected failure")
     V.proof_break_resolution(rep, bool(bad_spec))
